@@ -127,3 +127,62 @@ def close(a, b, rtol=1e-11, atol=0.0):
     with np.errstate(all="ignore"):
         ok = np.isclose(a, b, rtol=rtol, atol=atol, equal_nan=True) | (np.isinf(a) & np.isinf(b) & (np.sign(a) == np.sign(b)))
     return ok
+
+
+def _num(x):
+    if hasattr(x, "value"):
+        x = x.value
+    return x
+
+
+def auto_env(tree, obj, args=None, ns=None, extra=None):
+    """environment for a generated term from a live object: `p.k` -> obj.params[k]; `cosmo.a` -> obj.cosmo.a; `a.b` -> attribute
+    paths; method arguments from `args`; `py:`/`flag:` sources evaluated with self=obj; `isnone:x`; `unitconv:` from g/cm^3"""
+    import astropy.units as u
+    args = args or {}
+    env = {}
+    scope = {"self": obj, "np": np, "u": u}
+    scope.update(ns or {})
+    for v in free_vars(tree):
+        try:
+            if extra and v in extra:
+                env[v] = extra[v]
+            elif v in args:
+                env[v] = args[v]
+            elif v.startswith("p."):
+                val = obj.params[v[2:]]
+                env[v] = float("nan") if val is None else float(val)
+            elif v.startswith("isnone:"):
+                tgt = v[7:]
+                val = obj.params.get(tgt[2:]) if tgt.startswith("p.") else eval("self." + tgt, scope)
+                env[v] = 1.0 if val is None else 0.0
+            elif v.startswith("flag:"):
+                env[v] = 1.0 if eval(v[5:], scope) else 0.0
+            elif v.startswith("py:"):
+                env[v] = np.asarray(_num(eval(v[3:], scope)), float)
+                if env[v].ndim == 0:
+                    env[v] = float(env[v])
+            elif v.startswith("unitconv:"):
+                env[v] = float((1 * u.g / u.cm ** 3).to(eval(v[9:], scope)).value)
+            elif v == "idx":
+                env[v] = None          # filled by the caller (needs the length)
+            else:
+                val = _num(eval("self." + v, scope)) if not v.startswith("super.") else None
+                if val is None:
+                    env[v] = float("nan")
+                else:
+                    val = np.asarray(val, float)
+                    env[v] = float(val) if val.ndim == 0 else val
+        except Exception:
+            env[v] = float("nan")
+    return env
+
+
+def tabulate_calls(tree, env, opq, n):
+    calls = []
+    for i in range(n):
+        try:
+            ev_py(tree, {k: (v[i] if np.ndim(v) else v) for k, v in env.items()}, opq, calls)
+        except Exception:
+            pass
+    return list({(a, b): (a, b, c) for a, b, c in calls}.values())
